@@ -541,6 +541,35 @@ def _sink_raises(tree: ast.Module, log: List[str], path: str) -> None:
                         st.body = sink(st.body)
                         if n_breaks[0]:
                             log.append(f'{path}:{st.lineno} raising block after the loop copied in front of {n_breaks[0]} break(s)')
+                        # `while <flag> is None and ...:` left through the flag: an assignment to the flag in tail position of
+                        # the body is followed by nothing but the loop test, which fails on the flag alone when the flag was
+                        # set; the guarded raising block (with its own test of the flag) copied behind it is exact
+                        first = st.test.values[0] if isinstance(st.test, ast.BoolOp) and isinstance(st.test.op, ast.And) else st.test
+                        flag_none = isinstance(first, ast.Compare) and len(first.ops) == 1 and isinstance(first.ops[0], ast.Is) \
+                            and isinstance(first.left, ast.Name) and first.left.id == flag \
+                            and isinstance(first.comparators[0], ast.Constant) and first.comparators[0].value is None
+                        plain_not_none = isinstance(nxt.test, ast.Compare) and isinstance(nxt.test.ops[0], ast.IsNot) \
+                            and isinstance(nxt.test.comparators[0], ast.Constant) and nxt.test.comparators[0].value is None
+                        n_tail = [0]
+
+                        def tail(block):
+                            if not block:
+                                return block
+                            last = block[-1]
+                            if isinstance(last, ast.If):
+                                last.body = tail(last.body)
+                                last.orelse = tail(last.orelse)
+                            elif isinstance(last, (ast.Assign, ast.AnnAssign)):
+                                tg = last.targets if isinstance(last, ast.Assign) else [last.target]
+                                if len(tg) == 1 and isinstance(tg[0], ast.Name) and tg[0].id == flag:
+                                    n_tail[0] += 1
+                                    return block + [copy.deepcopy(nxt)]
+                            return block
+                        if flag_none and plain_not_none:
+                            st.body = tail(st.body)
+                            if n_tail[0]:
+                                log.append(f'{path}:{st.lineno} raising block after the loop copied behind {n_tail[0]} '
+                                           f'assignment(s) of the loop flag `{flag}` in tail position')
                 out.append(st)
             return out
 
